@@ -126,6 +126,7 @@ def errStr : Err → String
   | .variant => "err:other"
   | .badbool => "err:bool"
   | .version => "err:version"
+  | .limit => "err:limit"
 
 /-- bincode names `UnexpectedEnd` what the spill reader calls `UnexpectedEof` -/
 def binErrStr : Err → String
@@ -273,9 +274,10 @@ def handle (args : List String) : Option Proto.Out :=
     let r := Bin.importSnapshot bs
     let m := resStr (fun e => if e == .version then "err:version" else "err:decode")
       (fun (p : Nat × Nat) => s!"ok {p.1} {p.2}") r
-    -- bincode's owned `String` decode allocates the announced length first (no limit configured)
+    -- since the repair the decode runs within a byte budget: the import returns on every input of a
+    -- modelled size (c16ser_snapshot_import_never_panics), its answer is the specification
     pure (if r.returned then { model := m, spec := m }
-          else { model := m, spec := "err:decode", sig := if m == "panic" then "snapshot-import-string-capacity-panic" else "snapshot-import-string-alloc-abort" })
+          else { model := m, spec := "err:decode", sig := "snapshot-import-no-return" })
   | _ => none
 
 end Grafeo.DriverSer
